@@ -412,6 +412,8 @@ class Tracer:
                         cur = nxt
                     outs.extend(self._block(s.orelse, cur, fi, depth))
                     continue
+                # (the loop reads its iterable whether or not there are elements: recorded as an event of its own)
+                q.events.append(Event('iter', callee=it.text, value=it, node=s, fn=fi.qualname, facts=tuple(q.facts), depth=depth))
                 if not pure_acc:
                     zero = q.fork()
                     outs.extend(self._block(s.orelse, [zero], fi, depth))
